@@ -426,10 +426,7 @@ func (h *RequestHeader) AppendBytes(dst []byte) []byte {
 	// they all are located in h.h.
 	n := len(h.cookies)
 	if n > 0 {
-		dst = append(dst, bytestr.StrCookie...)
-		dst = append(dst, bytestr.StrColonSpace...)
-		dst = appendRequestCookieBytes(dst, h.cookies)
-		dst = append(dst, bytestr.StrCRLF...)
+		dst = appendHeaderLine(dst, bytestr.StrCookie, appendRequestCookieBytes(nil, h.cookies))
 	}
 
 	if h.ConnectionClose() {
